@@ -13,13 +13,16 @@ import (
 	"errors"
 	"fmt"
 	"math"
+	"reflect"
 	"time"
 
+	utilerrors "k8s.io/apimachinery/pkg/util/errors"
 	"k8s.io/cli-runtime/pkg/genericiooptions"
 	"sigs.k8s.io/cli-utils/pkg/apply/event"
 	"sigs.k8s.io/cli-utils/pkg/common"
 	pollevent "sigs.k8s.io/cli-utils/pkg/kstatus/polling/event"
 	"sigs.k8s.io/cli-utils/pkg/kstatus/status"
+	"sigs.k8s.io/cli-utils/pkg/multierror"
 	"sigs.k8s.io/cli-utils/pkg/object"
 	"sigs.k8s.io/cli-utils/pkg/object/validation"
 	printcommon "sigs.k8s.io/cli-utils/pkg/print/common"
@@ -54,6 +57,34 @@ type c20Ev struct {
 	St     string     `json:"st,omitempty"`     // status events: kstatus text
 	M      string     `json:"m,omitempty"`      // status events: message
 	W      bool       `json:"w,omitempty"`      // validation: error wrapped in *validation.Error
+	// error events: the error is an aggregate of these causes (Agg 1: cli-utils MultiError, 2: apimachinery Aggregate); E is its text
+	Causes []string `json:"causes,omitempty"`
+	Agg    int      `json:"agg,omitempty"`
+}
+
+// c20AggErr builds the aggregate error of an error event (nil when the event carries a plain error).
+func c20AggErr(e c20Ev) error {
+	if e.Agg == 0 {
+		return nil
+	}
+	var errs []error
+	for _, c := range e.Causes {
+		errs = append(errs, errors.New(c))
+	}
+	if e.Agg == 2 {
+		return utilerrors.NewAggregate(errs)
+	}
+	return multierror.New(errs...)
+}
+
+// c20AggEv: an error event whose error is an aggregate; the text the model sees is the aggregate's own Error().
+func c20AggEv(agg int, causes []string) c20Ev {
+	e := c20Ev{T: "error", Causes: causes, Agg: agg}
+	if agg == 2 && len(causes) == 0 {
+		e.Agg = 1 // NewAggregate(nil) is a nil error
+	}
+	e.E = sp(c20AggErr(e).Error())
+	return e
 }
 
 type c20In struct {
@@ -97,6 +128,9 @@ func c20ToEvent(e c20Ev) (event.Event, error) {
 		msg := ""
 		if e.E != nil {
 			msg = *e.E
+		}
+		if ae := c20AggErr(e); ae != nil {
+			return event.Event{Type: event.ErrorType, ErrorEvent: event.ErrorEvent{Err: ae}}, nil
 		}
 		return event.Event{Type: event.ErrorType, ErrorEvent: event.ErrorEvent{Err: errors.New(msg)}}, nil
 	case "group":
@@ -328,7 +362,7 @@ func runC20(in c20In) (out c20Out) {
 		var re *printcommon.ResultError
 		isEv := false
 		for _, ee := range errEvents {
-			if perr == ee {
+			if sameErr(perr, ee) {
 				isEv = true
 			}
 		}
@@ -370,6 +404,19 @@ var c20Kstatus = []string{"InProgress", "Failed", "Current", "Terminating", "Not
 var c20ActNames = []string{"apply", "prune", "delete", "wait", "inventory"}
 
 func sp(s string) *string { return &s }
+
+// sameErr: identity of two error values; an apimachinery Aggregate is a slice (not comparable): same backing array and length.
+func sameErr(a, b error) bool {
+	ta, tb := reflect.TypeOf(a), reflect.TypeOf(b)
+	if ta != tb {
+		return false
+	}
+	if ta != nil && ta.Kind() == reflect.Slice {
+		va, vb := reflect.ValueOf(a), reflect.ValueOf(b)
+		return va.Len() == vb.Len() && va.Pointer() == vb.Pointer()
+	}
+	return a == b
+}
 
 func c20Subset(rng *proto.Rng, ids []jid, allowEmpty bool) []jid {
 	r := []jid{}
@@ -489,6 +536,16 @@ func c20Gen(rng *proto.Rng, maxGroups, maxIds int) c20In {
 	}
 	// early exit: error instead of the plan event
 	if rng.Chance(1, 14) {
+		if rng.Chance(1, 2) {
+			// ExitEarly with several invalid objects: one error event whose error aggregates one cause per object
+			n := rng.Intn(4)
+			var causes []string
+			for i := 0; i < n; i++ {
+				causes = append(causes, fmt.Sprintf("invalid object %d: metadata.name: Required value", i))
+			}
+			in.Events = append(in.Events, c20AggEv(1+rng.Intn(2), causes))
+			return in
+		}
 		in.Events = append(in.Events, c20Ev{T: "error", E: sp("exit early: invalid objects")})
 		return in
 	}
@@ -533,7 +590,9 @@ func c20Gen(rng *proto.Rng, maxGroups, maxIds int) c20In {
 		}
 	}
 	// final error: always possible; a truncated run usually ends with one
-	if (truncated && rng.Chance(3, 4)) || rng.Chance(1, 8) {
+	if rng.Chance(1, 16) {
+		in.Events = append(in.Events, c20AggEv(1+rng.Intn(2), []string{"task failed (action: \"Inventory\")", "context canceled", "50% done"}[:1+rng.Intn(3)]))
+	} else if (truncated && rng.Chance(3, 4)) || rng.Chance(1, 8) {
 		in.Events = append(in.Events, c20Ev{T: "error", E: sp(proto.Pick(rng, []string{"context canceled", "task failed (action: \"Inventory\")", "polling for status failed: x", "disk 99% full: %w"}))})
 	}
 	return in
